@@ -1141,6 +1141,39 @@ pub fn proc_pair_main(a: Option<usize>, b: usize) {
     println!("{}", crate::util::vis(&proc_surface(b)));
 }
 
+/// Replay of a recorded process pair: both processes are run again, no explorer.
+pub fn replay_proc_pair(spec: &str) -> i32 {
+    let v: Vec<usize> = spec.split_whitespace().filter_map(|x| x.parse().ok()).collect();
+    if v.len() != 2 {
+        eprintln!("malformed proc_pair field");
+        return 2;
+    }
+    let exe = std::env::current_exe().expect("current exe");
+    let run = |a: Option<usize>, b: usize| -> String {
+        std::process::Command::new(&exe)
+            .arg("c18procpair")
+            .arg(a.map_or("-".to_string(), |x| x.to_string()))
+            .arg(b.to_string())
+            .output()
+            .map(|o| String::from_utf8_lossy(&o.stdout).trim().to_string())
+            .unwrap_or_default()
+    };
+    let (pa, fa, xa) = proc_triple(v[0]);
+    let (pb, fb, xb) = proc_triple(v[1]);
+    println!("fresh process 1: compile({:?},{:?},{}) and use it; compile({:?},{:?},{}) and observe it", pa, fa, if xa { "xsd" } else { "xpath" }, pb, fb, if xb { "xsd" } else { "xpath" });
+    println!("fresh process 2: compile({:?},{:?},{}) and observe it", pb, fb, if xb { "xsd" } else { "xpath" });
+    let (after, alone) = (run(Some(v[0]), v[1]), run(None, v[1]));
+    println!("after the first compilation: {}", after);
+    println!("alone:                       {}", alone);
+    if after != alone {
+        println!("REPRODUCED: the second compilation depends on the first");
+        1
+    } else {
+        println!("NOT REPRODUCED: identical observations");
+        0
+    }
+}
+
 const PROC_PER_CHUNK: usize = 64;
 
 fn proc_chunks() -> u64 {
@@ -1196,6 +1229,7 @@ fn proc_chunk(k: u64, out: &mut ChunkOut) {
                 ("sequence", J::s(format!("in a fresh process: compile({:?},{:?},{}) and use it; compile({:?},{:?},{}) and use it", pa, fa, if xa { "xsd" } else { "xpath" }, pb, fb, if xb { "xsd" } else { "xpath" }))),
                 ("expected", J::s(&want)),
                 ("observed", J::s(&got)),
+                ("proc_pair", J::s(format!("{} {}", a, b))),
                 ("note", J::s("expected = the second triple compiled and observed alone in a fresh process (rxmc c18procpair - <b>)")),
             ]);
             out.failures.push(Failure { key: case.key("C18", "CompilationDependsOnEarlierOne"), detail: d });
